@@ -138,6 +138,7 @@ def run(ctx):
     counter_unchanged_on_refusal(db, rep, "D1k-COUNTER-ON-REFUSAL")
     no_abort_on_program_value(db, rep, "D1l-NO-ABORT-ON-VALUE")
     label_cursor_reset(db, rep, "D1m-LABEL-CURSOR-RESET")
+    __import__("importlib").import_module("rules.c14").growth_covers_need(db, rep, "D1n-GROWTH-COVERS-NEED")
     d3c_unroll_bounded(db, rep)
     d1i_divisor_positive(db, rep)
 
